@@ -7043,6 +7043,78 @@ let norm_seg = function
 let norm_path loc =
   (Npos (XO (XO (XI (XO (XO XH)))))) :: (flat_map norm_seg loc)
 
+type hop =
+| HNewEnv of envcfg
+| HRegister of nat * str * fdecl
+| HCompile of nat * str
+| HApply of nat * json
+| HFindEnv of nat * str * json
+| HFindModule of str * json
+
+type hstate = { envs : envcfg list; compiled : (nat * query) list }
+
+type hout =
+| HNone
+| HNodes of node list result
+| HCompiled of nat result
+
+(** val set_reg : envcfg -> registry -> envcfg **)
+
+let set_reg c0 rg =
+  { min_idx = c0.min_idx; max_idx = c0.max_idx; max_depth = c0.max_depth;
+    reg = rg; rx = c0.rx }
+
+(** val update_nth : nat -> ('a1 -> 'a1) -> 'a1 list -> 'a1 list **)
+
+let rec update_nth n0 f = function
+| [] -> []
+| x :: r0 ->
+  (match n0 with
+   | O -> (f x) :: r0
+   | S n' -> x :: (update_nth n' f r0))
+
+(** val hstep : envcfg -> hstate -> hop -> hstate * hout **)
+
+let hstep dflt s = function
+| HNewEnv base ->
+  ({ envs = (app s.envs (base :: [])); compiled = s.compiled }, HNone)
+| HRegister (e, name, d) ->
+  ({ envs =
+    (update_nth e (fun c0 -> set_reg c0 ((name, d) :: c0.reg)) s.envs);
+    compiled = s.compiled }, HNone)
+| HCompile (e, text) ->
+  (match nth_error s.envs e with
+   | Some c0 ->
+     (match m_compile c0 text with
+      | Ok q ->
+        ({ envs = s.envs; compiled = (app s.compiled ((e, q) :: [])) },
+          (HCompiled (Ok (length s.compiled))))
+      | Err (a, b) -> (s, (HCompiled (Err (a, b))))
+      | Crash x -> (s, (HCompiled (Crash x)))
+      | OutOfFuel -> (s, (HCompiled OutOfFuel)))
+   | None -> (s, HNone))
+| HApply (cq, v) ->
+  (match nth_error s.compiled cq with
+   | Some p ->
+     let (e, q) = p in
+     (match nth_error s.envs e with
+      | Some c0 -> (s, (HNodes (m_find c0 q v)))
+      | None -> (s, HNone))
+   | None -> (s, HNone))
+| HFindEnv (e, text, v) ->
+  (match nth_error s.envs e with
+   | Some c0 -> (s, (HNodes (m_env_find c0 text v)))
+   | None -> (s, HNone))
+| HFindModule (text, v) -> (s, (HNodes (m_env_find dflt text v)))
+
+(** val hrun : envcfg -> hstate -> hop list -> hstate * hout list **)
+
+let rec hrun dflt s = function
+| [] -> (s, [])
+| o :: r0 ->
+  let (s1, x) = hstep dflt s o in
+  let (s2, xs) = hrun dflt s1 r0 in (s2, (x :: xs))
+
 (** val iota_json : z -> json list **)
 
 let iota_json len =
@@ -7386,6 +7458,122 @@ let op_norm_path r0 =
   | Some p -> let (loc, _) = p in enc_str (norm_path loc)
   | None -> bad_request
 
+(** val dec_hop : rxrow list -> hop dec **)
+
+let dec_hop t = function
+| [] -> None
+| z0 :: r0 ->
+  (match z0 with
+   | Z0 ->
+     (match r0 with
+      | [] -> None
+      | depth :: l0 ->
+        (match l0 with
+         | [] -> None
+         | lo :: l1 ->
+           (match l1 with
+            | [] -> None
+            | hi :: r1 ->
+              (match dec_registry r1 with
+               | Some p ->
+                 let (rg, r') = p in
+                 Some ((HNewEnv { min_idx = lo; max_idx = hi; max_depth =
+                 (Z.to_nat depth); reg = (app rg builtin_registry); rx =
+                 (rx_lookup t) }), r')
+               | None -> None))))
+   | Zpos p ->
+     (match p with
+      | XI p0 ->
+        (match p0 with
+         | XI _ -> None
+         | XO p1 ->
+           (match p1 with
+            | XH ->
+              (match dec_str r0 with
+               | Some p2 ->
+                 let (t', r1) = p2 in
+                 (match dec_json r1 with
+                  | Some p3 ->
+                    let (v, r') = p3 in Some ((HFindModule (t', v)), r')
+                  | None -> None)
+               | None -> None)
+            | _ -> None)
+         | XH ->
+           (match r0 with
+            | [] -> None
+            | c0 :: r1 ->
+              (match dec_json r1 with
+               | Some p1 ->
+                 let (v, r') = p1 in Some ((HApply ((Z.to_nat c0), v)), r')
+               | None -> None)))
+      | XO p0 ->
+        (match p0 with
+         | XI _ -> None
+         | XO p1 ->
+           (match p1 with
+            | XH ->
+              (match r0 with
+               | [] -> None
+               | e :: r1 ->
+                 (match dec_str r1 with
+                  | Some p2 ->
+                    let (t', r2) = p2 in
+                    (match dec_json r2 with
+                     | Some p3 ->
+                       let (v, r') = p3 in
+                       Some ((HFindEnv ((Z.to_nat e), t', v)), r')
+                     | None -> None)
+                  | None -> None))
+            | _ -> None)
+         | XH ->
+           (match r0 with
+            | [] -> None
+            | e :: r1 ->
+              (match dec_str r1 with
+               | Some p1 ->
+                 let (t', r') = p1 in Some ((HCompile ((Z.to_nat e), t')), r')
+               | None -> None)))
+      | XH ->
+        (match r0 with
+         | [] -> None
+         | e :: r1 ->
+           (match dec_fdecl r1 with
+            | Some p0 ->
+              let (p1, r') = p0 in
+              let (nm, d) = p1 in Some ((HRegister ((Z.to_nat e), nm, d)), r')
+            | None -> None)))
+   | Zneg _ -> None)
+
+(** val enc_hout : hout -> z list **)
+
+let enc_hout = function
+| HNone -> Z0 :: []
+| HNodes r0 -> (Zpos XH) :: (enc_result (enc_list enc_node) r0)
+| HCompiled r0 ->
+  (Zpos (XO XH)) :: (enc_result (fun n0 -> (Z.of_nat n0) :: []) r0)
+
+(** val op_history : z list -> z list **)
+
+let op_history r0 =
+  match dec_list dec_rxrow r0 with
+  | Some p ->
+    let (t, r1) = p in
+    (match dec_list (dec_hop t) r1 with
+     | Some p0 ->
+       let (ops, _) = p0 in
+       enc_list enc_hout
+         (snd
+           (hrun
+             (mk_cfg (S (S (S (S (S (S (S (S (S (S (S (S (S (S (S (S (S (S (S
+               (S (S (S (S (S (S (S (S (S (S (S (S (S (S (S (S (S (S (S (S (S
+               (S (S (S (S (S (S (S (S (S (S (S (S (S (S (S (S (S (S (S (S (S
+               (S (S (S (S (S (S (S (S (S (S (S (S (S (S (S (S (S (S (S (S (S
+               (S (S (S (S (S (S (S (S (S (S (S (S (S (S (S (S (S (S
+               O))))))))))))))))))))))))))))))))))))))))))))))))))))))))))))))))))))))))))))))))))))))))))))))))))))
+               builtin_registry t) { envs = []; compiled = [] } ops))
+     | None -> bad_request)
+  | None -> bad_request
+
 (** val dispatch : z list -> z list **)
 
 let dispatch = function
@@ -7556,7 +7744,7 @@ let dispatch = function
                | XO p3 -> (match p3 with
                            | XH -> op_float r0
                            | _ -> bad_request)
-               | XH -> bad_request)
+               | XH -> op_history r0)
             | XO p2 ->
               (match p2 with
                | XI p3 ->
